@@ -115,6 +115,10 @@ def _exec_case(case):
         if isinstance(r, Raised):
             return out.fail(f"freeze-raises:{r.type}", r.text)
         qm = model[0]
+    if case["seed"] % 3 == 0:
+        # fine-tuning with the model in eval mode (batch-norm / dropout frozen) is legal: gradients do not depend on it
+        model.eval()
+        out.klass.append("eval-mode")
     base = x.clone().requires_grad_(True)
     inp = _perm(base) if case["xlayout"] == "permuted" else base
     fed = inp
